@@ -154,7 +154,7 @@ def m_apply(tab, steps, model, prefix_fn=None):
 
 
 MAX_JOIN_WORK = 60000
-MAX_ROWS = 2000
+MAX_ROWS = 6000
 
 
 def _uniq(xs):
@@ -270,7 +270,7 @@ def model_canon(tab) -> Dict[str, Any]:
 def _gen_table(rd, shape) -> Dict[str, Any]:
     n = rd.choice([0, 1, 2, 3, 3, 4, 5, 6])
     if rd.random() < 0.04:
-        n = rd.choice([120, 600, 1500])  # above any plausible batch / chunk / sample size
+        n = rd.choice([120, 1100, 2600, 5200])  # above any plausible batch / chunk / sample size
     cols = [{"name": "k", "type": "i", "values": [rd.randrange(1, 4) for _ in range(n)]}]
     if shape in (0, 1, 2):
         cols.append({"name": "x", "type": "i", "values": [rd.randrange(-5, 20) for _ in range(n)]})
@@ -441,6 +441,17 @@ def generate(run_seed: int, cfg: Dict[str, Any]) -> Dict[str, Any]:
                                 "_scols": dict(belief[k_in]), "_rc": dict(qrc)})
                     belief[k_in] = qrc
                     history_belief.append((k_in, qrc, len(ops) - 1))
+            if earlier and r.random() < 0.08:
+                # motif: an input of an earlier pipeline is removed and re-created with other contents, then it runs again
+                again = r.choice(earlier)
+                k_in = again["pipe"]["src"]["key"]
+                if k_in in belief:
+                    same_shape = [ti for ti, t in enumerate(tables) if {c["name"]: c["type"] for c in t["cols"]} == belief[k_in]]
+                    if same_shape:
+                        ops.append({"op": "remove", "client": client, "key": k_in, "id": len(ops)})
+                        ops.append({"op": "insert", "client": client, "key": k_in, "table": r.choice(same_shape),
+                                    "ow": r.choice([None, False]), "id": len(ops)})
+                        history_belief.append((k_in, belief[k_in], len(ops) - 1))
             if earlier and r.random() < 0.3:
                 # the same pipeline again (a client re-running its query after the inputs may have changed)
                 again = r.choice(earlier)
